@@ -7,8 +7,8 @@ from framework import REPO
 from props import e1util
 from props.e1util import unhex
 
-TIE = ["Nsq.Tie.Wire", "Nsq.Tie.WireStack"]
-PROPS = ["Nsq.Props.C07", "Nsq.Props.C07Path", "Nsq.Props.C07Stack"]
+TIE = ["Nsq.Tie.Wire", "Nsq.Tie.WireFn", "Nsq.Tie.WireStack"]
+PROPS = ["Nsq.Props.C07", "Nsq.Props.C07Path", "Nsq.Props.C07Fn", "Nsq.Props.C07Stack"]
 
 
 from props import e9_dq  # noqa: E402
@@ -16,9 +16,13 @@ from props import e9_dq  # noqa: E402
 
 def run(ctx):
     ctx.trusted += [
-        "translator tools/go2lean (kinds consts/stmts/body): the statements of Message.WriteTo, decodeMessage, "
-        "SendFramedResponse, readMPUB, readLen, SendMessage, writeMessageToBackend, bufferPoolPut, doMPUB's text "
-        "loop and Topic.messagePump's copy are rendered as text and compared with the model's transcription",
+        "translator tools/go2lean, kind bytes: Message.WriteTo, decodeMessage, SendFramedResponse, SendResponse and "
+        "readLen are translated into Lean definitions (List UInt8 / BitVec, explicit panic outcome) that Tie.WireFn "
+        "proves equal to the model; its prelude Model/ByteOps renders encoding/binary big-endian as Model.Wire.beBytes/"
+        "beVal, bytes.Buffer as the writer that appends everything and io.ReadFull over a byte stream",
+        "translator tools/go2lean (kinds consts/stmts/body): the statements of readMPUB, SendMessage, "
+        "writeMessageToBackend, bufferPoolPut, doMPUB's text loop, doPUB's body read and Topic.messagePump's copy are "
+        "rendered as text and compared with the model's transcription",
         "encoding/binary, bufio.Writer / bufio.Reader.ReadBytes, io.LimitReader, io.ReadFull, bytes.Buffer "
         "(Go standard library): modelled, compared on generated inputs through the real code",
         "go-nsq ReadResponse / UnpackResponse / DecodeMessage as the client-side reader (modelled, compared)",
@@ -54,7 +58,8 @@ def run(ctx):
                 "{plain,TLS}x{none,snappy,deflate l}x{buffer size}x{buffer timeout}, REQ, two channels, restart; "
                 "a case is distinct by its operation line; non-trivial = not an error answer")
     gen_ok, _ = ctx.gen("e1_codec")
-    ctx.gen("e1_stack")
+    ctx.gen("e1_bytes")   # translated WriteTo / decodeMessage / SendFramedResponse / SendResponse / readLen (kind bytes)
+    ctx.gen("e1_stack")   # audit A2: the shape of SetOutputBuffer / Upgrade* (which tree: Tie.WireStack.treeFixed)
     ok, log = ctx.lean_build(TIE + PROPS)
     if not ok:
         ctx.lean_obligation_failed("lake build " + " ".join(TIE + PROPS), log[-1500:])
